@@ -258,6 +258,8 @@ def run_cases(cps, name, jobs=16):
         rb = pool.map(worker, bare, chunksize=1)
     for (case, _), a, b in zip(cps, rr, rb):
         if "fg" in a and "fg" in b:
+            if any((not math.isfinite(v)) or abs(v) > engine.BIG for v in a["fg"] + b["fg"]):
+                continue      # the probe vector overflows the propagated dynamics: no information
             if len(a["fg"]) != len(b["fg"]) or not all(engine.close(x, y, scale=abs(y)) for x, y in zip(a["fg"], b["fg"])):
                 dis.append({"property": "C10", "case": case, "points": [], "finding_key": None,
                             "what": [{"what": "initial guesses changed the objective or the constraints of the NLP"}]})
